@@ -144,6 +144,9 @@ func (t *scriptTask) Run(ctx context.Context) error {
 			close(t.readyC)
 		case <-failT:
 			w.log.Add(verifsim.Event{K: "script.fail", Node: t.n.id, S: t.spec.Name})
+			if t.spec.FailKind == "canceled" {
+				return fmt.Errorf("scripted failure of %s: lost upstream session: %w", t.spec.Name, context.Canceled)
+			}
 			return fmt.Errorf("scripted failure of %s", t.spec.Name)
 		case <-nilT:
 			w.log.Add(verifsim.Event{K: "script.nil", Node: t.n.id, S: t.spec.Name})
